@@ -666,6 +666,11 @@ func (auth *Authenticator) rehashPassword(user User, password string) error {
 
 		hashCost, costErr := bcrypt.Cost(currentUserImpl.PasswordHash_)
 		if costErr == nil && hashCost != auth.BcryptCost {
+			// currentPrincipal may have been reloaded after a CAS failure, and the password may have been changed
+			// since the caller verified it. Only re-hash when password still matches the hash being replaced.
+			if !compareHashAndPassword(cachedHashes, currentUserImpl.PasswordHash_, []byte(password)) {
+				return nil, base.ErrUpdateCancel
+			}
 			// the cost of the existing hash is different than the configured bcrypt cost.
 			// We'll re-hash the password to adopt the new cost:
 			err = currentUserImpl.SetPassword(password)
